@@ -36,6 +36,7 @@ var (
 	flagAllow    = flag.String("allow", "", "comma separated import paths exempt from the completeness scan")
 	flagExtra    = flag.String("add", "", "comma separated src=dst pairs: extra files added to the overlay (dst is the virtual path)")
 	flagQuiet    = flag.Bool("q", false, "quiet")
+	flagGoPrefix = flag.String("goprefix", "", "prefix of the names given to goroutines started by the transformed code")
 	flagSrcAdd   = flag.String("srcadd", "", "comma separated virtual=real pairs: source files added to the loaded packages (and to the overlay)")
 )
 
@@ -478,7 +479,7 @@ func (x *xf) refersTo(e ast.Expr, name string) bool {
 }
 
 func (x *xf) rewriteGo(n *ast.GoStmt) ast.Stmt {
-	site := filepath.Base(x.fset.Position(n.Pos()).Filename) + ":" + strconv.Itoa(x.fset.Position(n.Pos()).Line)
+	site := *flagGoPrefix + filepath.Base(x.fset.Position(n.Pos()).Filename) + ":" + strconv.Itoa(x.fset.Position(n.Pos()).Line)
 	name := &ast.BasicLit{Kind: token.STRING, Value: strconv.Quote(site)}
 	callx := n.Call
 	// go func(){...}() with no arguments: run the literal directly
